@@ -92,6 +92,32 @@ CHECKS = {
         technique="runtime monitoring: ASan driver + RFC 6902 reference evaluator (deep-copy semantics) comparing rc, failure index, result dump, patch dump before/after and copy_from dump; violating cases are bisected op by op for their key",
         text="10^5 conformance patches generated against the evolving reference document + 6*10^4 malformed/damaged patches (quick); 10^6 + 10^6 thorough.",
         note="trusted: reference evaluator (self-tested on RFC 6902 appendix A); document state after a failed patch, whole-document removal and null whole documents are not asserted"),
+    "C08": dict(
+        level="fault_enumeration", design="DESIGN.md §3 C08",
+        technique="fault enumeration under ASan/UBSan: the shim fails allocation k for EVERY k of each of 155 workloads (+ sampled double faults); differential oracle against the fault-free run, allocation-ledger conservation, before/after dumps of caller-owned objects, continued use of touched state",
+        text="Every allocation index of every workload in the corpus is failed in turn (~2.5k fault points, 29 of the 32 allocation call sites in the sources; the other 3 are compiled out); the outcome must be the "
+             "fault-free result or the documented failure value, with no leak, no crash and caller-owned objects unchanged and still freeable.",
+        note="trusted: shim fault schedule and ledger, gcc ASan/UBSan; complete for the corpus, not for the library; one listed known finding (serializers ignore print-buffer growth failures)"),
+    "C14": dict(
+        level="exploration", design="DESIGN.md §3 C14",
+        technique="runtime monitoring under a synthesised comma-decimal locale (global, per-thread, both): result bytes differential against the C-locale run; uselocale handle, printf/strtod behaviour and a locale-object ledger observed before/after every call",
+        text="~2*10^4 monitored parse/serialize calls (quick) covering every parser outcome class (success, continue, all 14 producible error codes incl. size) under each locale configuration.",
+        note="trusted: localedef-synthesised xx_XX locale (setup verifies it is in effect), shim locale ledger; LeakSanitizer off (glibc locale loader keeps LOCPATH buffers)"),
+    "C17": dict(
+        level="exploration", design="DESIGN.md §3 C17",
+        technique="runtime monitoring: full callback log (node identity, flags, parent, key/index, returned code) and return value compared with a reference traversal written from json_visit.h, for random trees x random return-code schedules",
+        text="4*10^5 (quick) / 3*10^6 (tree, schedule) pairs incl. SKIP/POP/STOP/ERROR/invalid codes on first and second visits.",
+        note="trusted: reference traversal (50 lines)"),
+    "C18": dict(
+        level="exploration", design="DESIGN.md §3 C18",
+        technique="ThreadSanitizer (asserts on and -DNDEBUG builds of the ENABLE_THREADING configuration) with log-based report classification + -O2 multi-thread stress with atomic monitors (lost update, premature/double destroy, exactly-one freeing put) + seed-race trials with a rendezvous inside json_c_get_random_seed()",
+        text="12 TSan runs over 6 scenarios, 27 stress runs with 4-16 threads x ~10^6 operations, 300 one-process seed trials with all entrants held inside the seed function (quick); thorough: 200 stress runs up to 32 threads, 20k seed trials.",
+        note="trusted: gcc TSan (sees executed accesses only), relaxed-atomic monitors; TSan reports on the random_seed global are recorded, the seed clause is decided behaviourally"),
+    "C20": dict(
+        level="fault_enumeration", design="DESIGN.md §3 C20",
+        technique="runtime monitoring with an interposed read/write layer on a real memfd: per-call transfer caps and one injected errno at every call index of small transfers; bytes that arrived vs serialization, value read vs one-shot in-memory parse, message/ledger/descriptor accounting",
+        text="~3*10^4 transfers (quick) with schedules around the 4096-byte buffer, EIO/ENOSPC/EINTR/EAGAIN injected at call 0..5 in 40% and at EVERY call index for 48 small documents.",
+        note="trusted: shim I/O script (forwarding to a real descriptor), one-shot parse as reference; EINTR retry policy not asserted"),
 }
 
 NOT_YET = {}
